@@ -139,10 +139,16 @@ def hermetic_execute(engine, prop, plan):
     launch.purge_batchie()
     launch.install_sim_threads()  # thread pools are the simulator's: tasks run one at a time in a seeded order
     launch.SIM_THREADS["rng"].seed(0)
+    from simkit import pipe
+
+    pipe.arm_leftovers(kernel.digest(plan))  # fault leftover.*: stale / empty / garbage files at a step's output path
     if hasattr(engine, "reset_state"):
         engine.reset_state()
     try:
-        return engine.execute(prop, plan)
+        res = engine.execute(prop, plan)
+        for k, n in pipe.LEFTOVERS["fired"].items():
+            res["stats"]["faults"][k] = res["stats"]["faults"].get(k, 0) + n
+        return res
     except HarnessError:
         raise
     except Exception as e:
